@@ -93,9 +93,9 @@ def run(chk):
     # A. access half: every access class combination, a query method and a privileged one
     a = dict(addrs=["lo4", "lo6", "remote4", "remote6", "malformed"],
              wls=["empty", "listsClient", "listsOthers", "wildcard"],
-             creds=["none", "userOnly", "passOnly", "both"], hdrs=ACCESS_HDRS,
+             creds=["none", "userOnly", "passOnly", "both"] if thorough else ["none", "userOnly", "both"], hdrs=ACCESS_HDRS,
              verbs=["POST", "GET", "PUT", "OPTIONS", "lowerPost"] if thorough else ["POST", "GET"],
-             ctypes=["json", "plain", "jsonCharset", "upperJson", "absent", "form"] if thorough else ["json", "absent", "jsonCharset"],
+             ctypes=["json", "plain", "jsonCharset", "upperJson", "absent", "form"] if thorough else ["json", "absent"],
              methods=["help", "setloglevel", "nosuchmethod"] if thorough else ["help", "setloglevel"],
              levels=["ConfigurationPermitted", "QueryOnly"], unpriv=unpriv)
     r = vf.tlc("Edge", "RPCAccess", "a.cfg", cfg_text=cfg(**a), workers=1, timeout=3000, jvm=("-Xmx8g",))
@@ -130,11 +130,11 @@ def run(chk):
                                      and c["args"]["creds"] == "both")))
     bad["exp"] = "401"
     recs, _ = vf.run_driver(binary, ["run", ec.write_cases("bad1.jsonl", [bad])])
-    chk.selftest("a served request declared unauthorised", ec.has_violation(recs))
+    ec.selftest(chk, "a served request declared unauthorised", recs)
     bad = json.loads(json.dumps(next(c for c in cases if c["exp"] == "served" and c["args"]["method"] == "sendrawtransaction")))
     bad["exp"] = "outOfLevel"
     recs, _ = vf.run_driver(binary, ["run", ec.write_cases("bad2.jsonl", [bad])])
-    chk.selftest("a permitted privileged call declared out of level", ec.has_violation(recs))
+    ec.selftest(chk, "a permitted privileged call declared out of level", recs)
 
     chk.assumptions += [
         "requests are handed to httpjsonrpc.Handle / jsonrpc.Server.ServeHTTP through net/http/httptest with RemoteAddr set; the "
